@@ -99,7 +99,9 @@ Definition num_body (neg : bool) (body : string) : option jv :=
   let '(ip, rest) := span is_digit body in
   match ip with
   | EmptyString => None
-  | _ =>
+  | String c0 ip' =>
+    (* JSON: no leading zero in front of another digit *)
+    if Ascii.eqb c0 "0" && negb (String.eqb ip' EmptyString) then None else
     match NilEmpty.uint_of_string ip with
     | None => None
     | Some u =>
